@@ -54,10 +54,13 @@ theorem effective_sizes (limit : Nat) (raw : List RawEntry) :
   unfold effective normLayer at he
   simp only [List.mem_filterMap] at he
   obtain ⟨pe, ⟨r, _, hr⟩, hpe⟩ := he
-  by_cases ha : pe.act = .accept
-  · simp [ha] at hpe; subst hpe
-    exact normEntry_accept_size limit r pe hr ha hk
-  · simp [ha] at hpe
+  unfold PEntry.node? at hpe
+  cases ha : pe.act <;> rw [ha] at hpe <;> simp only [Option.some.injEq] at hpe
+  · subst hpe; exact normEntry_accept_size limit r pe hr ha hk
+  · subst hpe; cases hk        -- the whiteout left for a rejected file is no file node
+  · subst hpe; cases hk
+  · cases hpe
+  · cases hpe
 
 /-! the invariant through the folds -/
 
